@@ -22,6 +22,7 @@ type SolverStats struct {
 }
 
 type Solver struct {
+	auxN int
 	name  string
 	cmd   *exec.Cmd
 	in    io.WriteCloser
@@ -48,7 +49,7 @@ func SolverCommand(name string, timeoutMS int) []string {
 	case "z3-new":
 		return []string{"z3-new", "-in", fmt.Sprintf("-t:%d", timeoutMS)}
 	case "cvc5":
-		return []string{"cvc5", "--incremental", "--lang=smt2", fmt.Sprintf("--tlimit-per=%d", timeoutMS), "--produce-models"}
+		return []string{"cvc5", "--incremental", "--lang=smt2", "--strings-exp", fmt.Sprintf("--tlimit-per=%d", timeoutMS), "--produce-models"}
 	default:
 		return []string{"z3", "-in", fmt.Sprintf("-t:%d", timeoutMS)}
 	}
@@ -105,6 +106,7 @@ func (s *Solver) Reset() {
 	s.scoped = nil
 	s.declLines = nil
 	s.frames = [][]string{nil}
+	s.auxN = 0
 }
 
 func (s *Solver) record(line string) {
@@ -123,6 +125,16 @@ func (s *Solver) Declare(name string, sort Sort) {
 	s.declLines = append(s.declLines, l)
 	s.record(l)
 	s.send(l)
+}
+
+// Name introduces a fresh constant equal to term and returns its name: keeps the terms of the string /
+// integer models small (the solvers do much better on named sub-terms than on the inlined copies).
+func (s *Solver) Name(sort Sort, term string) string {
+	s.auxN++
+	n := fmt.Sprintf("|$aux%d|", s.auxN)
+	s.Declare(n, sort)
+	s.Assert("(= " + n + " " + term + ")")
+	return n
 }
 
 func (s *Solver) DeclareFun(name string, args []Sort, res Sort) {
@@ -264,6 +276,9 @@ func (s *Solver) Check() string {
 
 func oneShotVerdict(backend, flat string, timeoutMS int) string {
 	res, err := OneShot(backend, flat+"(check-sat)\n", timeoutMS)
+	if d := os.Getenv("SYMGO_DUMP_UNKNOWN"); d != "" && (err != nil || len(res) == 0 || (res[len(res)-1] != "sat" && res[len(res)-1] != "unsat")) {
+		os.WriteFile(fmt.Sprintf("%s/fallback-%s-%d.smt2", d, backend, time.Now().UnixNano()), []byte(fmt.Sprintf("; verdicts %v err %v\n%s(check-sat)\n", res, err, flat)), 0o644)
+	}
 	if err != nil || len(res) == 0 {
 		return "unknown"
 	}
